@@ -52,8 +52,9 @@ Fixpoint mem_str (x : string) (l : list string) : bool :=
 (* ---------------------------------------------------------------- symbols *)
 Definition sid := nat.
 
-(* Symbol, DataSymbol, ContainerSymbol, RoutineSymbol, IntrinsicSymbol *)
-Inductive kind := KGeneric | KData | KContainer | KRoutine | KIntrinsic.
+(* Symbol, DataSymbol, ContainerSymbol, RoutineSymbol, IntrinsicSymbol,
+   GenericInterfaceSymbol (a RoutineSymbol; with the symbol objects of its member routines) *)
+Inductive kind := KGeneric | KData | KContainer | KRoutine | KIntrinsic | KGenIface (routines : list sid).
 
 (* AutomaticInterface, ArgumentInterface, ImportInterface(container symbol, orig_name or ""),
    UnresolvedInterface, CommonBlockInterface, anything else (Static/DefaultModule/Unknown/
@@ -82,6 +83,7 @@ Definition kind_eqb (a b : kind) : bool :=
   match a, b with
   | KGeneric, KGeneric | KData, KData | KContainer, KContainer
   | KRoutine, KRoutine | KIntrinsic, KIntrinsic => true
+  | KGenIface _, KGenIface _ => true
   | _, _ => false
   end.
 
@@ -98,8 +100,9 @@ Definition kind_isinstance (a b : kind) : bool :=
   | KGeneric => true
   | KData => kind_eqb a KData
   | KContainer => kind_eqb a KContainer
-  | KRoutine => kind_eqb a KRoutine || kind_eqb a KIntrinsic
+  | KRoutine => kind_eqb a KRoutine || kind_eqb a KIntrinsic || kind_eqb a (KGenIface [])
   | KIntrinsic => kind_eqb a KIntrinsic
+  | KGenIface _ => kind_eqb a (KGenIface [])
   end.
 
 (* IntrinsicCall.Intrinsic[name.upper()] exists *)
@@ -225,6 +228,13 @@ Definition imported_from (h : heap) (T : table) (c : sid) : list sid :=
   filter (fun x => match s_iface (hget h x) with IImport c' _ => Nat.eqb c' c | _ => false end)
          (sids T).
 
+(* _validate_remove_routinesymbol, the part about GenericInterfaceSymbols of the same table (the
+   walk over Calls of the attached tree is not modelled: the harness trees contain no Call) *)
+Definition is_routine (y : sym) : bool :=
+  match s_kind y with KRoutine | KIntrinsic | KGenIface _ => true | _ => false end.
+Definition in_interface (h : heap) (T : table) (s : sid) : bool :=
+  existsb (fun x => match s_kind (hget h x) with KGenIface l => mem_sid s l | _ => false end) (sids T).
+
 Definition tbl_remove (h : heap) (T : table) (s : sid) : table + err :=
   let y := hget h s in
   match s_kind y with
@@ -237,6 +247,7 @@ Definition tbl_remove (h : heap) (T : table) (s : sid) : table + err :=
       if negb (Nat.eqb s' s) then inr EInternal
       else if is_container y && negb (match imported_from h T s with [] => true | _ => false end)
            then inr EValue
+           else if is_routine y && in_interface h T s then inr EValue
            else inl (mkTable (del_key k (t_syms T))
                              (filter (fun e => negb (Nat.eqb (snd e) s)) (t_tags T))
                              (t_args T))
@@ -556,7 +567,12 @@ Definition spec_ok (h : heap) (sp : symspec) : bool :=
   match sp_iface sp with
   | IImport c _ => Nat.ltb c (List.length h) && is_container (hget h c)
   | _ => true
-  end.
+  end
+  && match sp_kind sp with
+     | KGenIface l => negb (match l with [] => true | _ => false end)
+                      && forallb (fun r => Nat.ltb r (List.length h) && is_routine (hget h r)) l
+     | _ => true
+     end.
 
 Definition mk_sym (name : string) (sp : symspec) : sym :=
   match sp_kind sp with
